@@ -429,6 +429,18 @@ pub fn run_property<P: Property>(p: &P, cfg: &RunCfg) -> Outcome {
 }
 
 /// Write replay files and print VIOLATION / KNOWN-FINDING lines. Returns the exit code.
+/// Messages about megabit vectors are cut (the replay file holds the whole case).
+pub fn clip(s: &str, max: usize) -> String {
+    if s.len() <= max {
+        return s.to_string();
+    }
+    let mut e = max;
+    while !s.is_char_boundary(e) {
+        e -= 1;
+    }
+    format!("{} ...[{} more bytes]", &s[..e], s.len() - e)
+}
+
 pub fn report(id: &str, cfg: &RunCfg, out: &Outcome) -> i32 {
     for (sig, what, n) in &out.known_hits {
         println!("KNOWN-FINDING: property={} {} [signature {}; {} generated cases excluded in this run, profile {}]", id, what, sig, n, cfg.profile);
@@ -466,13 +478,13 @@ pub fn report(id: &str, cfg: &RunCfg, out: &Outcome) -> i32 {
             "tier": cfg.tier.name(),
             "seed": cfg.seed,
             "signature": f.sig,
-            "message": f.msg,
+            "message": clip(&f.msg, 20000),
             "case": f.case_json,
         });
         let _ = std::fs::write(&path, serde_json::to_string_pretty(&doc).unwrap());
         println!("VIOLATION property={} replay={}", id, path.display());
         println!("  engine={} profile={} signature={}", f.engine, cfg.profile, f.sig);
-        println!("  {}", f.msg.replace('\n', "\n  "));
+        println!("  {}", clip(&f.msg, 4000).replace('\n', "\n  "));
     }
     1
 }
